@@ -139,8 +139,19 @@ def dl_alpha(n):
           'OKAY', 'OKAYdone', 'FAILnospace', 'XXXX', '', 'DA', 'FAIL9% %s']
 
 
+class ShortSource(object):
+  """A file-like image source that hands out at most PIECE characters per read() (a pipe / raw / socket style object)."""
+  PIECE = 700
+
+  def __init__(self, image):
+    self._io = io.StringIO(image)
+
+  def read(self, n=-1):
+    return self._io.read(self.PIECE if n is None or n < 0 else min(n, self.PIECE))
+
+
 def run_download(mode, n, script, cbmode, tmpdir):
-  """mode: filelike_len | filelike_nolen | path | flash_from_file."""
+  """mode: filelike_len | filelike_nolen | filelike_short | path | flash_from_file."""
   fp, ue = _mods()
   image = image_of(n)
   usb = FakeUsb(script)
@@ -165,6 +176,8 @@ def run_download(mode, n, script, cbmode, tmpdir):
       ret = cmds.download(io.StringIO(image), source_len=n, info_cb=cb, progress_callback=pc)
     elif mode == 'filelike_nolen':
       ret = cmds.download(io.StringIO(image), info_cb=cb, progress_callback=pc)
+    elif mode == 'filelike_short':
+      ret = cmds.download(ShortSource(image), source_len=n, info_cb=cb, progress_callback=pc)
     elif mode == 'path':
       ret = cmds.download(path, info_cb=cb, progress_callback=pc)
     else:
@@ -278,7 +291,7 @@ def work_items(tier):
   sizes = [0, 1, CHUNK - 1, CHUNK, CHUNK + 1, 2 * CHUNK - 1, 2 * CHUNK, 2 * CHUNK + 1]
   if tier == 'thorough':
     sizes += [3 * CHUNK, 3 * CHUNK + 5, 255, 256]
-  for mode in ('filelike_len', 'filelike_nolen', 'path', 'flash_from_file'):
+  for mode in ('filelike_len', 'filelike_nolen', 'filelike_short', 'path', 'flash_from_file'):
     for n in sizes:
       for cbmode in ('none', 'recording', 'raising'):
         if tier == 'quick' and cbmode == 'none' and mode != 'filelike_len':
